@@ -54,7 +54,7 @@ func (c17) Cases(tier string) int {
 func (c17) Describe() core.Info {
 	return core.Info{
 		Level: "exploration",
-		Rule: "typed random programs WITHOUT termination guards (unbounded fn:plus / fn:mult / fn:list:cons through recursion) mixed with terminating ones, base facts preloaded, evaluated with WithCreatedFactLimit(L), L in {1,2,5,20,100}, on every writable store kind behind a counting wrapper; every 10th case is a counting chain level(N,D) (guarded to 3..4000 keys or unguarded, one or two rules) on a predicate declared with fundep + merge (facts merged per key through a deferred lattice predicate), or the same chain without the declaration as control: one fresh key per round (or, in a third of them, one key whose value rises every round: an ascending chain in the lattice, a single stored fact replaced again and again), so only a limit on created facts can stop it; 0-3 further facts pad(i) are written in the program and in half of these cases L is exactly (or one more than) the number of facts written in the program, i.e. the budget is used up when the chain's stratum starts; a nil error there requires every level(n,n) up to the guard. Decided on logical steps: the wrapper aborts the run when successful Adds exceed B = (rules+3)*(L+1)*(strata+1) (violation: unbounded creation); a nil error requires the store to equal the reference model, which is computed with a bound of (rules+3)*(L+1)+50 derived facts (reference larger => the engine must have returned an error, because its own per-join/per-round/per-store checks cap what an error-free run can create). Non-trivial: program diverges (reference exceeds its bound) or its number of derived facts is within +-3 of L; distinct by (program, L, store).",
+		Rule: "typed random programs WITHOUT termination guards (unbounded fn:plus / fn:mult / fn:list:cons through recursion) mixed with terminating ones, base facts preloaded, evaluated with WithCreatedFactLimit(L), L in {1,2,5,20,100}, on every writable store kind behind a counting wrapper; every 10th case is a counting chain level(N,D) (guarded to 3..4000 keys or unguarded, one or two rules) on a predicate declared with fundep + merge (facts merged per key through a deferred lattice predicate), or the same chain without the declaration as control: one fresh key per round (or, in a third of them, one key whose value rises every round: an ascending chain in the lattice, a single stored fact replaced again and again), so only a limit on created facts can stop it; 0-3 further facts pad(i) are written in the program and in half of these cases L is exactly (or one more than) the number of facts written in the program, i.e. the budget is used up when the chain's stratum starts; a nil error there requires every level(n,n) up to the guard. Decided on logical steps: the wrapper aborts the run when successful Adds exceed B (or when Add was called more than 8B+200 times, successful or not: a run that keeps offering facts without the store growing does not return) = (rules+3)*(L+1)*(strata+1) (violation: unbounded creation); a nil error requires the store to equal the reference model, which is computed with a bound of (rules+3)*(L+1)+50 derived facts (reference larger => the engine must have returned an error, because its own per-join/per-round/per-store checks cap what an error-free run can create). Non-trivial: program diverges (reference exceeds its bound) or its number of derived facts is within +-3 of L; distinct by (program, L, store).",
 		Assumptions: []string{"an error on a small terminating program is not judged (the property does not exclude it); it is counted", "B is derived from the per-join, per-round and per-store limit checks of the loop and is deliberately generous"},
 		PerCaseTimeout: 120e9,
 	}
@@ -102,11 +102,21 @@ type countingStore struct {
 	factstore.FactStore
 	adds   int
 	budget int
+	tries  int // calls of Add, successful or not
 }
 
 type budgetExceeded struct{ adds int }
 
+// triesExceeded: the engine keeps offering facts to the store although (almost) none is new. The engine offers a
+// fact only after Contains said it is absent, so tries stay close to the successful adds unless the store's
+// Contains and Add disagree; the bound is 8*B+200.
+type triesExceeded struct{ tries int }
+
 func (c *countingStore) Add(a ast.Atom) bool {
+	c.tries++
+	if c.tries > 8*c.budget+200 {
+		panic(triesExceeded{c.tries})
+	}
 	ok := c.FactStore.Add(a)
 	if ok {
 		c.adds++
@@ -183,11 +193,16 @@ func c17ExecLattice(c c17Case, res *core.Result) (skip string, fail *evalFail) {
 	cs := &countingStore{FactStore: newEngineStore(c.Kind, nil), budget: B}
 	var evalErr error
 	exceeded := -1
+	tries := -1
 	func() {
 		defer func() {
 			if r := recover(); r != nil {
 				if be, ok := r.(budgetExceeded); ok {
 					exceeded = be.adds
+					return
+				}
+				if te, ok := r.(triesExceeded); ok {
+					tries = te.tries
 					return
 				}
 				panic(r)
@@ -213,6 +228,9 @@ func c17ExecLattice(c c17Case, res *core.Result) (skip string, fail *evalFail) {
 	tag := ":lattice"
 	if l.Plain {
 		tag = ":lattice-control"
+	}
+	if tries >= 0 {
+		return "", &evalFail{"add-attempts-not-bounded" + tag, fmt.Sprintf("limit %d, store %s: the evaluation offered %d facts to the store (%d accepted) and was still running", c.Limit, c.Kind, tries, cs.adds)}
 	}
 	if exceeded >= 0 {
 		return "", &evalFail{"creation-not-bounded" + tag, fmt.Sprintf("limit %d, store %s: the evaluation created %d facts, more than the bound B=%d, and was still running", c.Limit, c.Kind, exceeded, B)}
@@ -277,11 +295,16 @@ func c17Exec(c c17Case, res *core.Result) (skip string, fail *evalFail) {
 	store := &countingStore{FactStore: newEngineStore(c.Kind, baseAtoms(c.Prog)), budget: B}
 	var evalErr error
 	exceeded := -1
+	tries := -1
 	func() {
 		defer func() {
 			if r := recover(); r != nil {
 				if be, ok := r.(budgetExceeded); ok {
 					exceeded = be.adds
+					return
+				}
+				if te, ok := r.(triesExceeded); ok {
+					tries = te.tries
 					return
 				}
 				panic(r)
@@ -301,6 +324,22 @@ func c17Exec(c c17Case, res *core.Result) (skip string, fail *evalFail) {
 		} else if exceeded < 0 {
 			res.Ob("runs_ending_without_error", 1)
 		}
+	}
+	hc := func() string {
+		k := c.Kind
+		if len(k) > 11 && k[:11] == "concurrent-" {
+			k = k[11:]
+		}
+		if hashKeyed(k) && rr != nil && hashCollisions(refSet(rr)) {
+			return "hash-collision:" + k
+		}
+		return ""
+	}
+	if tries >= 0 {
+		if s := hc(); s != "" {
+			return "", &evalFail{s, fmt.Sprintf("limit %d, store %s: the evaluation offered %d facts to the store (%d accepted) and was still running; the store conflates hash-equal atoms: Contains says a new fact is absent, Add refuses it, and the round never becomes empty", c.Limit, c.Kind, tries, store.adds)}
+		}
+		return "", &evalFail{"add-attempts-not-bounded", fmt.Sprintf("limit %d, store %s: the evaluation offered %d facts to the store (%d accepted) and was still running", c.Limit, c.Kind, tries, store.adds)}
 	}
 	if exceeded >= 0 {
 		return "", &evalFail{"creation-not-bounded", fmt.Sprintf("limit %d, store %s: the evaluation created %d facts, more than the bound B=%d, and was still running", c.Limit, c.Kind, exceeded, B)}
@@ -322,16 +361,6 @@ func c17Exec(c c17Case, res *core.Result) (skip string, fail *evalFail) {
 		return "", nil
 	}
 	// nil error: the store must hold the complete model
-	hc := func() string {
-		k := c.Kind
-		if len(k) > 11 && k[:11] == "concurrent-" {
-			k = k[11:]
-		}
-		if hashKeyed(k) && rr != nil && hashCollisions(refSet(rr)) {
-			return "hash-collision:" + k
-		}
-		return ""
-	}
 	if divergent {
 		if s := hc(); s != "" {
 			return "", &evalFail{s, fmt.Sprintf("limit %d, store %s: evaluation returned nil after creating %d facts although the model has more than %d derived facts; the store conflates hash-equal atoms so the fixpoint test succeeds early", c.Limit, c.Kind, store.adds, refBound)}
